@@ -253,8 +253,34 @@ def _worker(args):
         t = mod.run_impl(spec)
         t["spec"] = spec
         return t
-    except Exception as e:  # harness crash: reported as exit 2, never as violation
-        return {"spec": spec, "crash": "".join(traceback.format_exception(type(e), e, e.__traceback__))[-3000:]}
+    except Exception as e:
+        text = "".join(traceback.format_exception(type(e), e, e.__traceback__))[-3000:]
+        # Who raised? Walk to the deepest frame that belongs to the harness or to the implementation under test. An
+        # exception that comes out of the implementation on a generated case - one the unchanged tree handles - is a
+        # failing input of the implementation, not a defect of the harness: it is reported as a finding with the case as
+        # replay. Everything else is a harness crash (exit 2, never a violation).
+        repo = os.path.realpath(os.environ.get("VERIF_REPO") or "/repo") + os.sep
+        here = os.path.realpath(os.path.dirname(os.path.abspath(__file__))) + os.sep
+        owner, func = None, None
+        tb = e.__traceback__
+        while tb is not None:
+            fn = os.path.realpath(tb.tb_frame.f_code.co_filename)
+            if fn.startswith(repo):
+                owner, func = "repo", os.path.basename(fn)[:-3] + "." + tb.tb_frame.f_code.co_name
+            elif fn.startswith(here):
+                owner = "harness"
+            tb = tb.tb_next
+        if owner == "repo":
+            try:
+                pid = importlib.import_module(modname).PID.lower()
+            except Exception:  # noqa
+                pid = "c00"
+            return {"spec": spec, "lines": [], "meta": {"hist": {"implementation-raised": 1}},
+                    "monitor": [{"signature": f"{pid}:implementation-raised:{type(e).__name__}:{func}",
+                                 "what": f"the implementation raised {type(e).__name__}: {str(e)[:200]} in {func} on a generated case "
+                                         f"(an exception the harness does not expect from any legal input)",
+                                 "detail": {"traceback": text[-1500:]}}]}
+        return {"spec": spec, "crash": text}
 
 
 def default_compare(inp, impl, model):
